@@ -45,9 +45,14 @@ def gen_layer(rng):
     m = rng.choice(["G", "V"])
     d = rng.random()
     mig = {"d": "recreate"} if d < 0.4 else {"d": "replace", "md": rng.choice(V_METAS if m == "V" else G_METAS)} if d < 0.88 else {"d": "err"}
-    return {"types": {"launch": rng.random() < 0.5, "build": rng.random() < 0.5, "cache": rng.random() < 0.75}, "m": m,
-            "strategy": rng.choice(["keep", "keep", "update", "update", "recreate", "err"]), "migrate": mig,
-            "create": gen_result(rng, m), "update": gen_result(rng, m)}
+    L = {"types": {"launch": rng.random() < 0.5, "build": rng.random() < 0.5, "cache": rng.random() < 0.75}, "m": m,
+         "strategy": rng.choice(["keep", "keep", "update", "update", "recreate", "err"]), "migrate": mig,
+         "create": gen_result(rng, m), "update": gen_result(rng, m)}
+    # a layer may compute its types from state its create/update (or a Keep decision) changed:
+    # Layer::types() is specified to be asked after that callback; before it the layer answers this
+    if rng.random() < 0.6:
+        L["types_pre"] = {"launch": rng.random() < 0.5, "build": rng.random() < 0.5, "cache": rng.random() < 0.5}
+    return L
 
 
 class C02(C01):
